@@ -598,5 +598,5 @@ impl<'a> Gen<'a> {
 }
 
 pub fn random_style(r: &mut Rng) -> Style {
-    Style { abbreviate: r.chance(1, 3), lowercase_keywords: r.chance(1, 4), newlines: r.chance(1, 3) }
+    Style { abbreviate: r.chance(1, 3), lowercase_keywords: r.chance(1, 4), newlines: r.chance(1, 3), prefixed: r.chance(1, 4) }
 }
